@@ -71,6 +71,8 @@ func assign(f []mnode, kinds []string, pos *int) []mnode {
 }
 
 type c20Run struct {
+	life   string // lifetimes of the Add leaves: "" all singleton | scoped | transient | rot (singleton, scoped, transient in turn)
+	addN   int
 	scheme string // module naming: "" unique | same (every module has one name) | alt (names repeat every second nesting level)
 	w     *kit.World
 	spec  *kit.Spec
@@ -82,12 +84,26 @@ type c20Run struct {
 // leafOption returns the ModuleOption for a leaf and the equivalent direct call.
 func (r *c20Run) leaf(kind string) (godi.ModuleOption, func(c godi.Collection) error) {
 	mkReg := func(t, name, group string) *kit.Reg {
-		r.spec.Regs = append(r.spec.Regs, kit.Reg{ID: len(r.spec.Regs), Life: "singleton", Outs: []kit.Out{{T: t}}, Name: name, Group: group})
+		life := "singleton"
+		switch r.life {
+		case "scoped", "transient":
+			life = r.life
+		case "rot":
+			life = []string{"singleton", "scoped", "transient"}[r.addN%3]
+		}
+		r.addN++
+		r.spec.Regs = append(r.spec.Regs, kit.Reg{ID: len(r.spec.Regs), Life: life, Outs: []kit.Out{{T: t}}, Name: name, Group: group})
 		return &r.spec.Regs[len(r.spec.Regs)-1]
 	}
 	add := func(rp *kit.Reg) (godi.ModuleOption, func(c godi.Collection) error) {
 		f := r.w.Fn(rp)
 		opts := kit.Options(rp)
+		switch rp.Life {
+		case "scoped":
+			return godi.AddScoped(f, opts...), func(c godi.Collection) error { return c.AddScoped(f, opts...) }
+		case "transient":
+			return godi.AddTransient(f, opts...), func(c godi.Collection) error { return c.AddTransient(f, opts...) }
+		}
 		return godi.AddSingleton(f, opts...), func(c godi.Collection) error { return c.AddSingleton(f, opts...) }
 	}
 	switch kind {
@@ -156,10 +172,21 @@ func nested(f []mnode, inMod bool) bool {
 // c20Check judges one forest; forests with nested modules are judged under every naming scheme
 // (unique names, one name for all modules, names repeating every second level).
 func c20Check(forest []mnode) (fs []Finding, outcome string) {
-	fs, outcome = c20CheckNamed(forest, "")
+	fs, outcome = c20CheckNamed(forest, "", "")
+	if countLeaves(forest) <= c20LifeMaxLeaves {
+		// the module forms of AddScoped / AddTransient are separate code from AddSingleton
+		for _, life := range []string{"transient", "scoped", "rot"} {
+			f2, _ := c20CheckNamed(forest, "", life)
+			for _, x := range f2 {
+				x.F["lifetimes"] = life
+				x.Detail += "\n  lifetimes of the Add entries: " + life
+				fs = append(fs, x)
+			}
+		}
+	}
 	if nested(forest, false) {
 		for _, sch := range []string{"same", "alt"} {
-			f2, _ := c20CheckNamed(forest, sch)
+			f2, _ := c20CheckNamed(forest, sch, "")
 			for _, x := range f2 {
 				x.F["names"] = sch
 				x.Detail += "\n  module naming scheme: " + sch
@@ -170,9 +197,12 @@ func c20Check(forest []mnode) (fs []Finding, outcome string) {
 	return
 }
 
-func c20CheckNamed(forest []mnode, scheme string) (fs []Finding, outcome string) {
+// c20LifeMaxLeaves: forests up to this many leaves are also judged with scoped / transient / rotating lifetimes.
+var c20LifeMaxLeaves = 3
+
+func c20CheckNamed(forest []mnode, scheme, life string) (fs []Finding, outcome string) {
 	spec := &kit.Spec{}
-	run := &c20Run{w: kit.NewWorld(spec), spec: spec, scheme: scheme}
+	run := &c20Run{w: kit.NewWorld(spec), spec: spec, scheme: scheme, life: life}
 	cnt := 0
 	opts := run.build(forest, nil, &cnt)
 	// building a module from a caller-owned slice must leave that slice alone
@@ -328,6 +358,7 @@ func c20Enumerate(r *mc.Report, n, depth, shard, nshards int) {
 		var f []mnode
 		if json.Unmarshal(r.Only, &f) == nil && countLeaves(f) == n {
 			var fs []Finding
+			c20LifeMaxLeaves = 4 // a replay judges the tree under every scheme, whatever tier found it
 			seqOnce(func() { fs, _ = c20Check(f) })
 			r.Executions++
 			for _, x := range fs {
@@ -392,8 +423,10 @@ func init() {
 				jobs = append(jobs, mc.Job{Name: fmt.Sprintf("c20-leaves3#%d", sh), Weight: 8, Run: func(r *mc.Report) { c20Enumerate(r, 3, 3, sh, 16) }})
 			}
 			d4 := 1
+			c20LifeMaxLeaves = 3
 			if tier == "thorough" {
 				d4 = 3
+				c20LifeMaxLeaves = 4
 			}
 			for sh := 0; sh < 16; sh++ {
 				sh := sh
